@@ -214,7 +214,6 @@ def data_cases(tier):
                 for over in ((), (0,), (units - 1,), (0, units - 1)):
                     size = units * w
                     inits = [(0, size, 0, 0, ('str', wname, n))]
-                    if any(o >= n for o in over): continue     # overrides are patched into the literal: only positions inside it are representable (upstream XXX)
                     for o in over:
                         inits.append((o * w, o * w + w, 0, 0, ('const', wname if wname != 'char' else 'char', 0x21 + o)))
                     for tail in (False, True):
@@ -311,7 +310,22 @@ def rule_emitdata(chk, prog, tier):
                     prev = o
                 it.call(fn, [Ptr(d, ()), head])
                 return ''.join(e_[1] for e_ in it.events if e_[0] == 'text')
-            runs = explore(prog, runner, M, max_runs=4, on_unsupported='keep')
+            def m_newbuf(i2, a, e):
+                o = Obj('strdata+', 'heap'); o.bytebuf = True; o.limit = a[1] * a[2] if isinstance(a[1], int) and isinstance(a[2], int) else None
+                return Ptr(o, (0,))
+            def m_memcpy(i2, a, e):
+                dst, src, n = a
+                if not isinstance(n, int) or n < 0 or n > 1 << 20: raise Terminal('out-of-bounds', 'memcpy of %r bytes' % (n,))
+                for k in range(n):
+                    if (src.path[-1] + k,) in src.obj.f: dst.obj.f[(dst.path[-1] + k,)] = src.obj.f[(src.path[-1] + k,)]
+                return dst
+            def m_memset(i2, a, e):
+                dst, c, n = a
+                if not isinstance(n, int) or n < 0 or n > 1 << 20: raise Terminal('out-of-bounds', 'memset of %r bytes' % (n,))
+                for k in range(n): dst.obj.f[(dst.path[-1] + k,)] = c
+                return dst
+            M2 = dict(M); M2.update({'xreallocarray': m_newbuf, 'memcpy': m_memcpy, 'memset': m_memset})
+            runs = explore(prog, runner, M2, max_runs=4, on_unsupported='keep')
             if len(runs) != 1:
                 res.append((key, 'paths', len(runs), None)); continue
             run = runs[0]
@@ -503,13 +517,26 @@ def ref_init(t, item):
             raise Unjudged('top-level type mismatch')
         if t.kind == 'array' and t.n is None: size = item[1] * item[2] if item[0] == 'str' else size
         writes.append((0, size * 8, item, t))
+    # a designated initialiser for part of a subobject that an earlier struct-valued expression initialised: gcc discards the expression for that
+    # subobject, clang (and cproc) overlay it - C11 6.7.9p19 is read both ways (cf. DR 413), so the case is not judged
+    for k, (o1, w1, v1, _) in enumerate(writes):
+        if v1[0] == 'sv' and any(o1 < o2 + w2 and o2 < o1 + w1 and not (o2 <= o1 and o1 + w1 <= o2 + w2) for o2, w2, v2, _ in writes[k + 1:]):
+            raise Unjudged('part of a struct-valued initialiser overridden')
     return writes, size
 
 
 def image_of(writes, nbits):
     """bit -> (label, bit index within the value); strings write min(len, size) units then zeros"""
     img = {}
+    done = []
     for off, width, val, _ in writes:
+        # a scalar is never initialised in part: an earlier scalar that the new value overlaps without covering it is another member of a union,
+        # which the new initialiser replaces (its remaining bits are implicitly zero; gcc and clang agree)
+        for o2, w2, v2 in done:
+            if v2[0] == 'e' and o2 < off + width and off < o2 + w2 and not (off <= o2 and o2 + w2 <= off + width):
+                for b in range(w2):
+                    if img.get(o2 + b) == (v2[-1], b): del img[o2 + b]
+        done.append((off, width, val))
         if val[0] == 'str':
             n, uw = val[1], val[2]
             for b in range(width):
@@ -688,7 +715,11 @@ def rule_parseinit(chk, prog, tier):
                 if stack and not (stack[-1][0] <= s_ and s_ + w_ <= stack[-1][0] + stack[-1][1]) or (stack and s_ < stack[-1][0]):
                     ok = False; det = 'list is not ordered / overlaps without containment at bit %d (+%d) after entry at bit %d (+%d): %s' % (s_, w_, stack[-1][0], stack[-1][1], [(a_, b2, c_[-1]) for a_, b2, c_ in inits][:8])
                     break
-                stack.append((s_, w_))
+                if stack and stack[-1][2] == 'e':
+                    # only a string or an aggregate value can be overlaid; a scalar entry that contains another one (two members of a union) is what emitdata() cannot print
+                    ok = False; det = 'a scalar entry at bit %d (+%d) contains the entry at bit %d (+%d): the initialiser of another union member was not replaced; list: %s' % (stack[-1][0], stack[-1][1], s_, w_, [(a_, b2, c_[-1]) for a_, b2, c_ in inits][:8])
+                    break
+                stack.append((s_, w_, v_[0]))
             if ok is False and det:
                 r.instance(False, key, 'init.c:parseinit', det); continue
             if not ok:
